@@ -375,6 +375,14 @@ func checkRegistryEdits(c *Ctx, p *Prog, R *BusRoles, rule string) {
 			if !ok || len(ret.Results) != 1 {
 				continue
 			}
+			// the answer for a nil bus (a guard on the bus parameter) is outside the property
+			if cond, onTrue := guardingCond(b); cond != nil {
+				if x, nonNilOnTrue, isNil := nilTest(cond); isNil && onTrue != nonNilOnTrue {
+					if prm := entryParam(x); prm != nil && prm.Parent() == f && typeName(prm.Type()) == "EventBus" {
+						continue
+					}
+				}
+			}
 			rets++
 			v := ret.Results[0]
 			// through a named-result cell?
@@ -480,6 +488,21 @@ func checkRegistryEdits(c *Ctx, p *Prog, R *BusRoles, rule string) {
 func loadThroughLocal(v ssa.Value) ssa.Value {
 	if u, ok := v.(*ssa.UnOp); ok && u.Op == token.MUL {
 		if a, ok := u.X.(*ssa.Alloc); ok {
+			// a result cell written earlier in the same block (`*r = x; rundefers; t = *r`)
+			if blk := u.Block(); blk != nil {
+				var last ssa.Value
+				for _, in := range blk.Instrs {
+					if in == ssa.Instruction(u) {
+						break
+					}
+					if st, ok := in.(*ssa.Store); ok && st.Addr == ssa.Value(a) {
+						last = st.Val
+					}
+				}
+				if last != nil {
+					return last
+				}
+			}
 			var stored ssa.Value
 			n := 0
 			for _, ref := range *a.Referrers() {
